@@ -223,6 +223,53 @@ Proof.
   - destruct v; cbn [fst]; try exact R. destruct (len_eq items g); cbn [fst]; auto using zip_assign_frame.
 Qed.
 
+(* ---- a member refuses its value half way ------------------------------------------------------- *)
+Lemma Forall2_upto {A} (R : A -> A -> Prop) (k : nat) (l front : list A) :
+  Forall2 R (firstn k l) front -> (forall x, R x x) -> Forall2 R l (front ++ skipn k l).
+Proof.
+  intros F Rr. rewrite <- (firstn_skipn k l) at 1. apply Forall2_app; [exact F | now apply Forall2_refl_on].
+Qed.
+
+(* also then: no other attribute, no identity / type / parent / observe count, not the membership *)
+Lemma set_sem_rej_frame d v k e g : wf_descr d = true ->
+  Forall2 (same_except (member_attr (d_name d))) g (fst (set_sem_rej d v k e g)).
+Proof.
+  intro W. pose proof (set_sem_frame d v g W) as S0.
+  destruct (wf_attrs d W) as (_ & _ & Hz & Hb & _).
+  assert (R : Forall2 (same_except (member_attr (d_name d))) g g) by (apply Forall2_refl_on, same_except_refl).
+  unfold set_sem_rej. rewrite Hz, Hb.
+  destruct (d_shape d) as [ks|ks tag| |ks| | | |] eqn:Sh; try exact S0;
+    (destruct (seq_view d v) as [vs|];
+     [ destruct (len_eq vs g); cbn [fst]; [apply Forall2_upto; [apply zip_assign_frame | apply same_except_refl] | exact R]
+     | destruct (scalar_case d v); cbn [fst]; [apply Forall2_upto; [apply bcast_frame | apply same_except_refl] | exact S0] ]).
+Qed.
+
+Lemma set_sem_rej_meta d v k e g : Forall2 same_meta g (fst (set_sem_rej d v k e g)).
+Proof.
+  pose proof (set_sem_meta d v g) as S0.
+  assert (R : Forall2 same_meta g g) by (apply Forall2_refl_on, same_meta_refl).
+  assert (Z : forall a vs, Forall2 same_meta (firstn k g) (zip_assign a (firstn k g) vs)).
+  { intros a vs. eapply Forall2_weaken; [|apply zip_assign_frame]. intros x y; apply same_except_meta. }
+  assert (B : forall a, Forall2 same_meta (firstn k g) (bcast a v (firstn k g))).
+  { intros a. eapply Forall2_weaken; [|apply bcast_frame]. intros x y; apply same_except_meta. }
+  unfold set_sem_rej.
+  destruct (d_shape d) as [ks|ks tag| |ks| | | |] eqn:Sh; try exact S0;
+    (destruct (seq_view d v) as [vs|];
+     [ destruct (len_eq vs g); cbn [fst]; [apply Forall2_upto; [apply Z | apply same_meta_refl] | exact R]
+     | destruct (scalar_case d v); cbn [fst]; [apply Forall2_upto; [apply B | apply same_meta_refl] | exact S0] ]).
+Qed.
+
+(* the group's own length check comes before any member sees a value *)
+Lemma set_sem_rej_wrong_length d v vs k e g : shape_ok (d_shape d) = true ->
+  (forall ks tag, d_shape d <> TypedBroadcast ks tag) ->
+  seq_view d v = Some vs -> List.length vs <> List.length g ->
+  set_sem_rej d v k e g = (g, Raised EValue).
+Proof.
+  intros Ok NT S L. apply len_eq_false in L. unfold set_sem_rej.
+  destruct (d_shape d) as [ks|ks tag| |ks| | | |] eqn:Sh; try discriminate Ok;
+    try (exfalso; eapply NT; reflexivity); now rewrite S, L.
+Qed.
+
 (* ---- tables ------------------------------------------------------------------------------------- *)
 (* the four claims of the property for one descriptor *)
 Definition satisfies_property (d : descr) : Prop :=
